@@ -1699,6 +1699,16 @@ func (e *specEnv) call(n *ECall) sval {
 			e.fail("local: unknown type %s", n.Args[1])
 		}
 		return e.localTyped(id.Name, want)
+	case "received": // received(chan): the value of the function's last receive on that channel (field or variable name)
+		id, ok := n.Args[0].(*EIdent)
+		if !ok || len(n.Args) != 1 {
+			e.fail("received(channel name)")
+		}
+		v, ok := e.vars["recv$"+id.Name]
+		if !ok {
+			e.fail("received(%s): no receive on that channel has been encoded on a path to this point", id.Name)
+		}
+		return v
 	case "param": // param(i): the i-th parameter of the function under contract, whatever it is called in the source
 		num, ok := n.Args[0].(*ENum)
 		if !ok || len(n.Args) != 1 || e.fr == nil {
